@@ -32,8 +32,11 @@ type entry struct {
 
 func menu(valid map[string]string) []entry {
 	var m []entry
-	for _, u := range []string{"a", "b"} {
+	for _, u := range []string{"a", "b", "a.b"} {
 		for _, ext := range []string{".user", ".admin", ".txt", ""} {
+			if u == "a.b" && (ext == ".txt" || ext == "") {
+				continue
+			}
 			m = append(m,
 				entry{file: u + ext, kind: "supported", user: u, ext: ext, content: valid[u]},
 				entry{file: u + ext, kind: "unsupported", user: u, ext: ext, content: "argon2id:1:99:AAAA:AAAA\n"},
@@ -140,7 +143,7 @@ func main() {
 	{
 		d := verifx.CheapDir(filepath.Join(root, "gen"), 1)
 		os.MkdirAll(d.BaseDir, 0700) //nolint:errcheck
-		for _, u := range []string{"a", "b"} {
+		for _, u := range []string{"a", "b", "a.b"} {
 			if err := d.AddUser(u, "pw-"+u, false); err != nil {
 				fmt.Fprintln(os.Stderr, err)
 				os.Exit(2)
